@@ -819,8 +819,9 @@ pub fn gen_shaped_wat(r: &mut Rng) -> (String, Vec<&'static str>) {
     let mut exports = String::new();
     let mut xn = 0;
     let n = 1 + r.below(6);
+    let mut used = 0u32;
     for _ in 0..n {
-        match r.below(9) {
+        match r.below(10) {
             0 => {
                 feats.push("wat:type-import");
                 d.named_val(r);
@@ -904,6 +905,59 @@ pub fn gen_shaped_wat(r: &mut Rng) -> (String, Vec<&'static str>) {
                 xn += 1;
                 exports.push_str(&format!("  (export \"xv{xn}\" (value {n_values}))\n"));
                 n_values += 1;
+            }
+            9 => {
+                // an instance that exports a type, and a second instance that *uses* that type
+                // (an alias of the first instance's export); either of them is imported under an
+                // interface id or under a plain name (an instance without id cannot be `use`d)
+                feats.push("wat:used-instance-type");
+                used += 1;
+                let k = used;
+                let is_res = r.chance(1, 2);
+                let src = if r.chance(1, 2) {
+                    feats.push("wat:used-instance-plain-name");
+                    d.name("i")
+                } else {
+                    d.names += 1;
+                    format!("a:b/i{}", d.names)
+                };
+                let body = if is_res {
+                    "(export \"t\" (type (sub resource)))".to_string()
+                } else {
+                    let def = loop {
+                        let v = wat_valtype(r, 1);
+                        if v.starts_with('(') {
+                            break v;
+                        }
+                    };
+                    format!("(type {def}) (export \"t\" (type (eq 0)))")
+                };
+                d.line(&format!("(import \"{src}\" (instance $si{k} {body}))"));
+                d.types += 1;
+                n_instances += 1;
+                let t = d.types;
+                d.types += 1;
+                d.line(&format!("(alias export $si{k} \"t\" (type $st{k}))"));
+                if is_res {
+                    d.resources.push(t);
+                } else {
+                    d.named_vals.push(t);
+                }
+                let user = if r.chance(1, 2) {
+                    d.name("i")
+                } else {
+                    d.names += 1;
+                    format!("a:b/i{}", d.names)
+                };
+                let uname = if r.chance(1, 2) { "t" } else { "u" };
+                d.line(&format!("(import \"{user}\" (instance (export \"{uname}\" (type (eq $st{k})))))"));
+                d.types += 1;
+                if r.chance(1, 3) {
+                    xn += 1;
+                    exports.push_str(&format!("  (export \"xi{xn}\" (instance {n_instances}))\n"));
+                    feats.push("wat:instance-export");
+                }
+                n_instances += 1;
             }
             _ => {
                 // a component *type* / instance *type* imported as a type
